@@ -267,9 +267,6 @@ func (s *MemoryStore) EnqueueBatch(items []Envelope) (int, error) {
 			return 0, ErrEnvelopeExists
 		}
 		seenIDs[env.ID] = struct{}{}
-		if _, exists := s.items[env.ID]; exists {
-			return 0, ErrEnvelopeExists
-		}
 		if env.State == "" {
 			env.State = StateQueued
 		}
@@ -304,6 +301,15 @@ func (s *MemoryStore) EnqueueBatch(items []Envelope) (int, error) {
 			if len(victims) < need {
 				return 0, ErrQueueFull
 			}
+		}
+	}
+
+	// An ID that is still stored refuses the batch - unless that message is one
+	// of the drop_oldest victims, in which case it is replaced, exactly as a
+	// single Enqueue and the SQLite store (which evicts before it inserts) do.
+	for _, env := range prepared {
+		if _, exists := s.items[env.ID]; exists && !containsID(victims, env.ID) {
+			return 0, ErrEnvelopeExists
 		}
 	}
 
